@@ -101,29 +101,29 @@ TB_COMMON = [
 
 PROPS = {
     "C01": {"verus": ["vfw", "vleaf"], "kani": ["k_new_fracs"] + STATE_PARTS, "untagged": True, "title": "Framework is total",
-            "explanation": "Verus proves, generically in the machine container M, the RNG R and the clock T, that trigger_events / process_event / transition / update_counter / schedule_action / decrement_limit / below_action_limits and the bodies of below_limit_padding / below_limit_blocking never index out of bounds, never overflow an integer, never unwrap None, that recursion and all loops terminate (decreases on the per-machine CounterZero guards), that an event naming a non-existent machine touches no machine [C01.ids] and that one machine step makes at most 1 + (guards consumed) <= 3 deliveries [C01.steps]. Not machine-checked: Framework::new's machine loop (iter_mut().zip()), the summation of the per-step work bound over a batch. Explicit hypotheses: packet counters < 2^64; dur_headroom (F5)."},
+            "explanation": "Verus proves, generically in the machine container M, the RNG R and the clock T, that trigger_events / process_event / transition / update_counter / schedule_action / decrement_limit / below_action_limits and the bodies of below_limit_padding / below_limit_blocking never index out of bounds, never overflow an integer, never unwrap None; recursion and all loops terminate (decreases on the per-machine CounterZero guards); an event naming a non-existent machine touches no machine [C01.ids]; one machine step makes at most 1 + (guards consumed) <= 3 deliveries [C01.steps] and a whole call at most (events + 2) * (3 * machines + 3) [C01.work] (ghost delivery log, folded over the loops by lemmas). Kani: Framework::new accepts exactly fractions in [0,1]; State::validate validates the distributions of the action and of both counters, so that validated machines cannot make a sampler panic [C01.valid]. Not machine-checked: Framework::new's machine loop (iter_mut().zip()). Explicit hypotheses: packet counters < 2^64; dur_headroom (known finding F5)."},
     "C02": {"verus": ["vfw"], "kani": ["k_pad"], "title": "Padding budgets",
-            "explanation": "K-PAD: Kani function contract on the real below_limit_padding, all u64 counters, all fractions in [0,1], bit-precise IEEE-754: true => state limit > 0 and (budget left or both fractions below, zero packets counting as below). V-FW: below_action_limits / transition carry the predicate: a slot that changes to SendPadding satisfies pad_budget_ok on the accounting of that moment [C02.prov]; machine steps never write the accounting [C02.acct]; process_event counts NormalSent / PaddingSent (any id) before the machines run. The composition over a whole single-event call (slots cleared at call start + the above) is argued in DESIGN.md, not machine-checked."},
+            "explanation": "K-PAD: Kani function contract on the real below_limit_padding, all u64 counters, all fractions in [0,1], bit-precise IEEE-754: true => state limit > 0 and (budget left or both fractions below, zero packets counting as below). V-FW: a slot that changes to SendPadding satisfies pad_budget_ok on the accounting of that moment [C02.prov]; machine steps never write the accounting and process_event counts NormalSent / PaddingSent (any id) before the machines run [C02.acct]; folded over the machine loops, the event loop and the signal rounds: after a call that reports ONE event every returned SendPadding slot satisfies pad_budget_ok on the final accounting [C02.single] - the statement of the property, as a postcondition of trigger_events."},
     "C03": {"verus": ["vfw"], "kani": ["k_blk"], "title": "Blocking budgets",
-            "explanation": "K-BLK: Kani function contract on the real below_limit_blocking over a virtual clock (u64 microseconds) whose division is abstracted to an arbitrary function (Ackermann encoding), so the result holds for every clock with a deterministic div_duration_f64. V-FW (generic in T): accounting step of BlockingBegin / BlockingEnd with saturating time differences [C03.acct], provenance of BlockOutgoing slots [C03.prov]."},
+            "explanation": "K-BLK: Kani function contract on the real below_limit_blocking over a virtual clock (u64 microseconds) whose division is abstracted to an arbitrary function (Ackermann encoding), so the result holds for every clock with a deterministic div_duration_f64. V-FW (generic in T): accounting step of BlockingBegin / BlockingEnd with saturating time differences, repeated begins keep the first start [C03.acct]; provenance of BlockOutgoing slots [C03.prov]; postcondition of trigger_events for single-event calls [C03.single]."},
     "C04": {"verus": ["vfw"], "kani": ["k_clamp_timeout", "k_clamp_duration"], "title": "Output contract",
-            "explanation": "Slot invariant for every reachable framework state: slot i is None or an action naming machine i with kind / flags / timer of the action declared in some state of machine i and every duration <= 86 400 000 000 us [C04.slot][C04.shape]; transition is the identity on ended machines [C04.end]; the clamps of sample_timeout / sample_duration are proved by Kani for every f64 the distribution could return [C04.clamp]. 'At most one action per machine, distinct machines' is the slot invariant plus the dropped iterator tail (assumed)."},
+            "explanation": "Slot invariant for every reachable framework state: slot i is None or an action naming machine i with kind / flags / timer of the action declared in some state of machine i and every duration <= 86 400 000 000 us [C04.slot][C04.shape]; every call starts from empty slots [C04.clear]; transition is the identity on ended machines and, folded over the loops of a call, a machine that had ended before the call stays ended and its slot is None at return [C04.end] (postcondition of trigger_events); the clamps of sample_timeout / sample_duration are proved by Kani for every f64 the distribution could return [C04.clamp]. 'At most one action per machine, distinct machines' is the slot invariant plus the dropped iterator tail (assumed)."},
     "C05": {"verus": ["vsem"], "kani": [], "ambient_scan": True, "title": "Deterministic function matching the stated semantics",
             "explanation": "V-SEM: the real bodies of trigger_events, process_event, transition, update_counter, schedule_action, decrement_limit and below_action_limits are proved to satisfy `final.view() == sem_f(old.view(), args)` where view() is the whole instance as a mathematical value (runtimes, slots, RNG, clock, accounting, pending signal) and sem_trigger / sem_event / sem_all / sem_round / sem_transition / sem_update_counter / sem_schedule / sem_decrement are spec functions written from the documented operational semantics (events in order, machines in index order, LimitReached and CounterZero at once, one round of signals). Equality with a function is determinism: equal instances (e.g. an instance and its clone) fed equal inputs have equal views and return equal slots. Assumed: every leaf sampler is a function of its arguments and the RNG state, the two limit predicates and the clock arithmetic are functions of their arguments [C05.det] - justified by the mechanical ambient-authority scan [C05.ambient] (no static mut, thread_local, Cell/RefCell/Atomic, Instant::now, SystemTime, thread_rng, OsRng, unsafe in the non-test code of crates/maybenot/src); Framework::new is not covered."},
     "C06": {"verus": [], "kani": ["k_event_index", "k_sample_none", "k_sample_1", "k_sample_2", "k_sample_3"],
             "title": "Transition probabilities",
             "explanation": "sample_state, executed through the real rand 0.8 gen_range(0.0..1.0), equals the cumulative-threshold specification for every 32-bit RNG word and every validated probability vector; BOUNDED in the list length (k = 1, 2 quick; 3 thorough). The counting step from thresholds to shares (within 2^-23) is done on paper in DESIGN.md."},
     "C07": {"verus": ["vfw", "vleaf"], "kani": ["k_pad", "k_blk", "k_clamp_limit"], "title": "Per-state limits",
-            "explanation": "limit > 0 is a conjunct of every limited action's predicate (V-LEAF on the real bodies generic in T, K-PAD / K-BLK bit-precise) and scheduling is preceded by a true predicate [C07.pos]; a transition that reports Unchanged keeps state and limit [C07.once]; decrement_limit saturates at 0 and raises LimitReached exactly when the decremented limit is 0 and the state's action carries a limit, after withdrawing the slot [C07.reach]. Not machine-checked at call level: that only the named machine's limit is consumed (visible in process_event's guards `mi == machine.into_raw()`, but the log-based clause [C07.own] did not verify within the resource limit)."},
+            "explanation": "limit > 0 is a conjunct of every limited action's predicate (V-LEAF on the real bodies generic in T, K-PAD / K-BLK bit-precise) and scheduling is preceded by a true predicate [C07.pos]; a transition reports Unchanged exactly when the machine entered no state - also across CounterZero round trips (ghost epoch counter) [C07.epoch] - and then keeps state and limit [C07.once]; a completion consumes the limit only if the machine did not change state [C07.own] and only LimitReached deliveries for the machine the completion names occur [C07.own]; decrement_limit saturates at 0 and raises LimitReached exactly when the decremented limit is 0 and the state's action carries a limit, after withdrawing the slot [C07.reach]; sample_limit without a limit distribution is u64::MAX (Kani)."},
     "C08": {"verus": ["vfw"], "kani": ["k_counter_value"], "title": "Counters",
             "explanation": "update_counter's arithmetic equals counter_apply (saturating at 0 and u64::MAX, copy uses the other counter's pre-transition value, unit value 1) [C08.apply]; CounterZero is delivered exactly when a counter of this machine went non-zero -> zero and its per-machine guard was unset [C08.exact][C08.once]; nothing is scheduled or delivered before that [C08.prec]."},
     "C09": {"verus": ["vfw"], "kani": [], "title": "Signals",
-            "explanation": "Signaller abstraction {none, one(x), many}: every machine step changes it only by sig_join written from the statement (a machine signalling again stays the only signaller) [C09.join]. The delivery round of trigger_events (each live machine other than the lone signaller exactly once) is NOT machine-checked; see DESIGN.md."},
+            "explanation": "Signaller abstraction {none, one(x), many}: every machine step changes it only by sig_join written from the statement [C09.join]; no Signal is delivered while the events are processed [C09.once]; the delivery round, against round_post written from the statement: with one signaller x every other live machine receives exactly one Signal and x receives one iff some machine answered and x is live, with several signallers every live machine receives exactly one, never two Signals to one machine, none to ended machines [C09.round]; what was raised is consumed by the call [C09.consumed]. All as in-body obligations / postconditions over the ghost delivery log, generic in the number of machines."},
     "C10": {"verus": ["vfw"], "kani": [], "title": "Non-interference",
-            "explanation": "Write frame: a step of machine i leaves every other machine's runtime and slot untouched [C10.frame], writes no framework-level state other than rng, signal_pending (sanctioned) [C10.shared], and delivers events only to machine i [C10.local]. The relational solo-vs-combined lemma is not attempted."},
-    "C12": {"verus": [], "kani": ["k_valid_machine", "k_new_fracs"] + VALID_DIST + STATE_PARTS,
+            "explanation": "Write frame: a step of machine i leaves every other machine's runtime, slot and state-change count untouched [C10.frame], writes no framework-level state other than rng and signal_pending (sanctioned) [C10.shared], delivers events only to machine i [C10.local]; every global event is delivered to every live machine whatever the other machines do [C10.observe] (postcondition of process_event). The relational solo-vs-combined lemma is not attempted; C05's functional semantics make the dependence of machine i's step on (its own runtime, its machine, shared accounting, rng) explicit."},
+    "C12": {"verus": ["vfw"], "kani": ["k_valid_machine", "k_new_fracs"] + VALID_DIST + STATE_PARTS,
             "title": "Validation soundness",
-            "explanation": "Kani on the real validate functions: accepted fractions are real numbers in [0,1] [C12.fracs]; accepted distributions have parameters the sampler's constructor accepts plus the explicit speed bounds, for 7 of the 11 families (uniform, normal, skewnormal, lognormal, binomial, pareto, weibull) [C12.dist]; NOT decided: State::validate's transition checks (the harnesses k_valid_state_* exist but CBMC does not finish on the real HashSet code within 15 minutes), and the poisson / geometric / gamma / beta constructors (loops over symbolic floats, inline asm); Framework::new accepts exactly fractions in [0,1] [C12.new]. from_str / Machine::new calling validate is by inspection (two lines), not machine-checked."},
+            "explanation": "Kani on the real validate functions: accepted fractions are real numbers in [0,1] [C12.fracs]; Framework::new accepts exactly fractions in [0,1] [C12.new]; accepted distributions have parameters the sampler's constructor accepts plus the explicit speed bounds, for 7 of the 11 families (uniform, normal, skewnormal, lognormal, binomial, pareto, weibull) [C12.dist]; State::validate validates the distribution of the action and of BOTH counters in every shape of the counter pair [C12.parts]. NOT decided: State::validate's transition loop (targets, duplicates, probabilities, sums): CBMC does not finish on the real HashSet code and Verus rejects the loop (continue in an iterator for-loop); poisson / geometric / gamma / beta constructors. from_str / Machine::new calling validate is by inspection."},
     "C13": {"verus": [], "kani": ["k_dist_sample", "k_clamp_timeout", "k_clamp_duration", "k_clamp_limit",
                                   "k_counter_value"] + VALID_DIST, "title": "Sampling in range",
             "explanation": "Dist::sample with the underlying rand_distr sampler over-approximated by 'returns any f64': the result is not NaN, >= 0, <= max when max > 0, and finite, for all 11 families and all start/max including NaN and infinities; the consumers' conversions never panic and clamp to one day. NOT decided: that the rand_distr samplers return promptly (probabilistic termination) - an explicit assumption."},
